@@ -16,12 +16,12 @@ LEVEL = "exploration"
 BUDGET = {"quick": 60, "thorough": 480}
 RULE = (
     "case = a sequence of 5-20 DML/DDL statements (INSERT VALUES 1-5 rows with/without permuted column lists, "
-    "INSERT..SELECT with predicate, UPDATE/DELETE with 3VL predicates, TRUNCATE, CREATE/DROP TABLE|VIEW|SCHEMA) over "
+    "INSERT..SELECT with predicate, UPDATE/DELETE with 3VL predicates, UPDATE..FROM / DELETE..USING a source joined on a key (0, 1 or several partners per row), TRUNCATE, CREATE/DROP TABLE|VIEW|SCHEMA) over "
     "generated tables (0-12 rows, NULLs, duplicates); after every statement the status row, rowcount, target multiset and "
     "bystander tables are compared with the model. Non-trivial = at least one DML statement whose model-affected count was "
     "compared; distinct = distinct statement sequences."
 )
-REQUIRED = ["cmp_status", "cmp_rowcount", "cmp_target", "cmp_bystander", "cmp_ddl_status", "affected_zero", "affected_many", "cmp_execute_string"]
+REQUIRED = ["cmp_status", "cmp_rowcount", "cmp_target", "cmp_bystander", "cmp_ddl_status", "affected_zero", "affected_many", "cmp_execute_string", "joined_dml"]
 ASSUMPTIONS = [
     "the reference model implements SQL three-valued logic for the generated predicate language only",
     "table contents are read through a raw DuckDB cursor of the same instance (committed view)",
@@ -78,9 +78,9 @@ def gen_cases(tier: str, seed: int):
                     setx = ["notb", c]
                 else:
                     setx = ["const", c, r.choice(models.POOL[t])]
-                stmts.append({"k": "update", "set": setx, "pred": models.gen_pred(r) if r.random() < 0.85 else None})
+                stmts.append({"k": "update", "set": setx, "pred": models.gen_pred(r) if r.random() < 0.85 else None, "join": r.random() < 0.25})
             elif x < 0.8:
-                stmts.append({"k": "delete", "pred": models.gen_pred(r) if r.random() < 0.9 else None})
+                stmts.append({"k": "delete", "pred": models.gen_pred(r) if r.random() < 0.9 else None, "join": r.random() < 0.2})
             elif x < 0.85:
                 stmts.append({"k": "truncate", "kw": r.random() < 0.5})
             else:
@@ -184,24 +184,37 @@ def run_case(case: dict, env: core.Env) -> None:
                 fn = lambda v: None if v is None else (not v)  # noqa: E731
             where = f" WHERE {models.pred_sql(st['pred'])}" if st["pred"] else ""
             sql = f"UPDATE T SET {c} = {rhs}{where}"
-            affected = 0
+            joined = st.get("join", False)
+            if joined:
+                # only the rows that have a partner in SRC (same A); a row with several partners is still one row
+                sql = f"UPDATE T SET {c} = {rhs} FROM (SELECT A AS KA FROM SRC) S WHERE A = KA" + (f" AND ({models.pred_sql(st['pred'])})" if st["pred"] else "")
+            affected = multi = pairs = 0
             nm = []
             for row in model:
-                if st["pred"] is None or models.pred_eval(st["pred"], models.row_dict(row)) is True:
+                partners = sum(1 for sr in src if row[0] is not None and sr[0] == row[0]) if joined else 1
+                if partners and (st["pred"] is None or models.pred_eval(st["pred"], models.row_dict(row)) is True):
                     row = list(row)
                     row[ci] = fn(row[ci])
                     affected += 1
+                    multi += partners > 1
+                    pairs += partners
                 nm.append(row)
-            model, cmd = nm, "UPDATE"
-            expect_status = [(affected, 0)]
+            model, cmd = nm, "UPDATE-FROM" if joined else "UPDATE"
+            expect_status = [(affected, multi)]
+            if multi:
+                cmd = "UPDATE-FROM/multi-joined"
         elif k == "delete":
             where = f" WHERE {models.pred_sql(st['pred'])}" if st["pred"] else ""
             sql = f"DELETE FROM T{where}"
+            joined = st.get("join", False)
+            if joined:
+                sql = "DELETE FROM T USING (SELECT A AS KA FROM SRC) S WHERE A = KA" + (f" AND ({models.pred_sql(st['pred'])})" if st["pred"] else "")
             keep = [
                 row for row in model
-                if not (st["pred"] is None or models.pred_eval(st["pred"], models.row_dict(row)) is True)
+                if not ((not joined or (row[0] is not None and any(sr[0] == row[0] for sr in src)))
+                        and (st["pred"] is None or models.pred_eval(st["pred"], models.row_dict(row)) is True))
             ]
-            affected, cmd = len(model) - len(keep), "DELETE"
+            affected, cmd = len(model) - len(keep), "DELETE-USING" if joined else "DELETE"
             model = keep
             expect_status = [(affected,)]
         elif k == "truncate":
@@ -215,6 +228,8 @@ def run_case(case: dict, env: core.Env) -> None:
             raise ValueError(k)
 
         total_before = len(model) if k in ("update",) else None
+        if k in ("update", "delete") and st.get("join"):
+            env.count("joined_dml")
         acls = _cls(affected, total_before)
         env.cover("cmd_x_affected", f"{cmd}/{acls}")
         if not case["t_rows"] and si == 0:
@@ -232,13 +247,19 @@ def run_case(case: dict, env: core.Env) -> None:
             env.count("cmp_status")
             got = [tuple(r) for r in (out["rows"] or [])]
             if got != expect_status:
-                env.witness(f"C04/{cmd}/status-row/affected={acls}", f"{sql} -> status {got} expected {expect_status}")
+                if cmd == "UPDATE-FROM/multi-joined" and got == [(pairs, 0)]:
+                    env.witness(f"C04/{cmd}/status-row/counts-joined-pairs-not-rows", f"{sql} -> status {got} expected {expect_status}")
+                else:
+                    env.witness(f"C04/{cmd}/status-row/affected={acls}", f"{sql} -> status {got} expected {expect_status}")
             env.count("cmp_rowcount")
             if out["rowcount"] != affected:
-                env.witness(
-                    f"C04/{cmd}/rowcount/affected={acls}/observed={_cls(out['rowcount'] or 0)}",
-                    f"{sql} -> rowcount {out['rowcount']} expected {affected}",
-                )
+                if cmd == "UPDATE-FROM/multi-joined" and out["rowcount"] == pairs:
+                    env.witness(f"C04/{cmd}/rowcount/counts-joined-pairs-not-rows", f"{sql} -> rowcount {out['rowcount']} expected {affected}")
+                else:
+                    env.witness(
+                        f"C04/{cmd}/rowcount/affected={acls}/observed={_cls(out['rowcount'] or 0)}",
+                        f"{sql} -> rowcount {out['rowcount']} expected {affected}",
+                    )
             compared += 1
         else:
             env.count("cmp_truncate_status")
